@@ -1159,12 +1159,21 @@ impl NamingActor {
     /// 刷新服务管理范围，在集群节点有变化时触发
     /// 重新管理更新后的临时实例生命周期
     fn refresh_process_range(&mut self, range: ProcessRange) -> anyhow::Result<()> {
+        let mut released = vec![];
         for (service_key, service) in &mut self.service_map {
             let hash_value = get_hash_value(service_key) as usize;
             if !range.is_range(hash_value) {
                 continue;
             }
-            service.do_refresh_process_range();
+            for (client_id, short_key) in service.do_refresh_process_range() {
+                let instance_key =
+                    InstanceKey::new_by_service_key(service_key, short_key.ip, short_key.port);
+                released.push((client_id, instance_key));
+            }
+        }
+        // a taken-over instance is no longer an instance of the old owner's client
+        for (client_id, instance_key) in released {
+            self.remove_client_instance_key(&client_id, &instance_key);
         }
         self.current_range = Some(range);
         Ok(())
